@@ -433,6 +433,22 @@ fn c17(tier: Tier, seed: u64, case: u64) -> CaseReport {
                 0 | 1 => t.push_str(&format!("{} {}\n\n", words.next(&mut rng, false), words.next(&mut rng, false))),
                 2 if !headless => t.push_str(&format!("# {}\n\n", words.next(&mut rng, false))),
                 3 => t.push_str(&format!("- {}\n- {}\n\n{}\n\n", words.next(&mut rng, false), words.next(&mut rng, false), words.next(&mut rng, false))),
+                5 if mode <= 1 && rng.chance(1, 2) => {
+                    // a block reference inside a list item (a paragraph of its own under the item text) or inside a quote
+                    if let Some(target) = keys.get(i + 1 + rng.below(2)).cloned() {
+                        let rel = mdscan::relativize(&target, &dir);
+                        if !rel.starts_with("..") {
+                            let ti = keys.iter().position(|x| *x == target).map(|p| p as i64).unwrap_or(-1);
+                            if rng.chance(1, 2) {
+                                edges.push(format!("{}>item>{}", i, ti));
+                                t.push_str(&format!("- {}\n\n  [{}]({})\n\n- {}\n\n", words.next(&mut rng, false), words.next(&mut rng, false), rel, words.next(&mut rng, false)));
+                            } else {
+                                edges.push(format!("{}>quote>{}", i, ti));
+                                t.push_str(&format!("> {}\n>\n> [{}]({})\n\n", words.next(&mut rng, false), words.next(&mut rng, false), rel));
+                            }
+                        }
+                    }
+                }
                 _ => {
                     // a block reference: tree / DAG / cycle / self / dangling depending on mode
                     let target = match mode {
@@ -519,7 +535,8 @@ fn c17(tier: Tier, seed: u64, case: u64) -> CaseReport {
             // heading depth > 6 is a separate known finding: recognise "#######" paragraphs
             let too_deep = got.iter().any(|a| a.starts_with("p:#######"));
             if too_deep {
-                rep.count("heading_deeper_than_6", 1);
+                // repaired in /repo (headings are clamped to level six): a "#######" paragraph is a violation again
+                rep.violate("squash-heading-became-text", "clean", format!("key {} depth {}: the expansion holds a paragraph that starts with seven number signs", key, depth), replay.clone());
                 return rep;
             }
             let mut want = model.clone();
@@ -916,6 +933,14 @@ fn c18(tier: Tier, seed: u64, case: u64) -> CaseReport {
                 if p.3 != want {
                     rep.violate("rank-not-reference-count", "clean", format!("note {} title `{}`: rank {} but {} references", k, title, p.3, want), replay.clone());
                 }
+            }
+        }
+        // only the note's first block, when it is a heading, carries the note's rank: every other heading ranks 0
+        let primary_line = scan.atoms.first().filter(|a| matches!(a.kind, AKind::Heading(_)) && a.chain.is_empty()).map(|a| a.line);
+        for p in all_search.iter().filter(|p| p.0 == *k && Some(p.2 as usize) != primary_line) {
+            if p.3 != 0 {
+                rep.violate("rank-on-secondary-heading", "clean", format!("note {}: entry `{}` at line {} is not the note's first block but has rank {}", k, p.1, p.2, p.3), replay.clone());
+                break;
             }
         }
     }
